@@ -1604,7 +1604,7 @@ class FnTranslator:
 
     # ---------------------------------------------------------------- the function
     def translate(self, toks):
-        p = Parser(toks)
+        p = getattr(self, "parser_class", Parser)(toks)     # dialect "cf": tools/rs2lean_cf.py
         body = p.body()
         sp = self.spec
         params = []      # Var
@@ -1754,9 +1754,16 @@ def translate_unit(src, unit, fail):
     anything outside the subset."""
     rel = unit["file"]
     out_fns, snippets = [], {}
+    src_all = src
     for f in unit["functions"]:
         what = "fn %s" % f["name"]
         rx = header_regex(f["header"])
+        if unit.get("dialect") == "cf":         # tools/rs2lean_cf.py: control flow, containers; spec key `after`
+            import rs2lean_cf
+            try:
+                src = rs2lean_cf.restrict(src_all, f)
+            except Unsupported as u:
+                fail("%s: %s: %s" % (rel, what, u.msg))
         ms = list(re.finditer(rx, src.code))
         if len(ms) != 1:
             fail("%s: %s: expected exactly one function with the header `%s`, found %d (signature changed, renamed or "
@@ -1766,7 +1773,10 @@ def translate_unit(src, unit, fail):
         snippets[f["name"]] = ms[0].group(0)[:-1].strip() + " {" + body + "}"
         try:
             toks = tokenize(body, start)
-            tr = FnTranslator(unit, f, src, body, start)
+            if unit.get("dialect") == "cf":
+                tr = rs2lean_cf.FnTranslatorX(unit, f, src, body, start)
+            else:
+                tr = FnTranslator(unit, f, src, body, start)
             helpers, main, ret_fields, tail = tr.translate(toks)
         except Unsupported as u:
             where = "%s:%d" % (rel, src.line_of(u.pos)) if u.pos is not None else "%s:%d" % (rel, line)
@@ -1902,6 +1912,24 @@ unit(name="SrcPrescan", props="property C04", file="src/utils/mod.rs",
                      abstract_fns={"op": dict(lean="op", args=["T", "T"], ret="T")},
                      params=[("a", "&mut [T]"), ("neutral", "T")], ret=None,
                      theorem="RbV.Thm.GenSrcPrescan.prescan_eq_model")])
+
+
+# ---- dialect "cf" (tools/rs2lean_cf.py; builder genmisc): C20 / C19 / C07 -------------------------------------------------
+
+unit(name="SrcOrf", props="property C20", file="src/seq_analysis/orf.rs", dialect="cf",
+     aliases={"Orf": "(usize, usize, i8)"},
+     functions=[dict(name="Matches::next", lean="next", header="fn next(&mut self) -> Option<Orf>",
+                     # `self.seq: iter::Enumerate<T>` with `T::Item: Borrow<u8>`: the (index, symbol) pairs not yet consumed
+                     self_fields=[("finder.start_codons", "Vec<VecDeque<u8>>"), ("finder.stop_codons", "Vec<VecDeque<u8>>"),
+                                  ("finder.min_len", "usize"), ("state.start_pos", "[Vec<usize>; 3]"),
+                                  ("state.codon", "VecDeque<u8>"), ("state.found", "VecDeque<Orf>"),
+                                  ("seq", "Iter<(usize, u8)>")],
+                     params=[], ret="Option<Orf>", struct_fields={"Orf": ["start", "end", "offset"]},
+                     # the length test of the flush loop is a parameter: the property leaves frames of length
+                     # min_len .. min_len+2 free, the theorems hold for every test inside that freedom (seeded C20-H1)
+                     cond_holes={"for2": dict(lean="lenTest", args=[("index", "usize"), ("start_pos", "usize"),
+                                                                    ("self.finder.min_len", "usize")])},
+                     theorem="RbV.Thm.GenSrcOrf.next_eq_model")])
 
 
 # ================================================================================================== self-test
